@@ -341,6 +341,154 @@ const TACTICS: &[&str] = &[
     "1q4k1/P1P2ppp/8/8/8/8/5PPP/R5K1 w - - 0 1",
 ];
 
+/// En-passant families, ENUMERATED (no file, no sampling): small configurations in which the
+/// en-passant capture is the move that matters.
+/// (A) shield/pin: White pawn on its fifth rank, Black pawn beside it that has just made its
+///     double step, both kings and one black slider on every square; kept when the en-passant
+///     capture is pseudo-legal but NOT legal (it would expose the king along a rank, file or
+///     diagonal, or does not answer a check).
+/// (B) evasion: the black pawn's double step gives check to the white king and capturing it en
+///     passant is a legal answer; the position itself and its parent (before the double step) are
+///     targets, so the check-evasion code of interior nodes is exercised too.
+/// Both colours (mirror). `stride` thins the list deterministically.
+pub fn ep_family(thorough: bool) -> Vec<Target> {
+    use super::oracle::K;
+    let mut out: Vec<Target> = vec![];
+    let mut n = 0usize;
+    let stride_a = if thorough { 1 } else { 6 };
+    let stride_b = if thorough { 1 } else { 10 };
+    let mut push = |out: &mut Vec<Target>, q: &Pos, name: &str, d: u8| {
+        for r in [q.clone(), q.mirror()] {
+            out.push(Target { name: format!("{name} {}", r.fen()), fen: r.fen(), history: vec![], max_depth: d });
+        }
+    };
+    // (A)
+    for wf in [1usize, 4, 6] {
+        for side in [-1i32, 1] {
+            let bf = (wf as i32 + side) as usize;
+            for bk in [63usize, 56] {
+                for wk in 0..64usize {
+                    for ssq in 0..64usize {
+                        for kind in [3i8, 4, 5] {
+                            let wp = 4 * 8 + wf;
+                            let bp = 4 * 8 + bf;
+                            let sqs = [wp, bp, bk, wk, ssq];
+                            if (0..5).any(|a| (a + 1..5).any(|b| sqs[a] == sqs[b])) {
+                                continue;
+                            }
+                            // the squares behind the black pawn must be empty (it came from its home square)
+                            if [5 * 8 + bf, 6 * 8 + bf].iter().any(|x| sqs.contains(x)) {
+                                continue;
+                            }
+                            let mut p = Pos::empty();
+                            p.sq[wp] = 1;
+                            p.sq[bp] = -1;
+                            p.sq[bk] = -K;
+                            p.sq[wk] = K;
+                            p.sq[ssq] = -kind;
+                            p.white = true;
+                            p.ep_file = Some(bf as u8);
+                            p.halfmove = 0;
+                            p.fullmove = 20;
+                            if p.in_check(false) {
+                                continue;
+                            }
+                            let kings_adjacent = ((wk % 8) as i32 - (bk % 8) as i32).abs() <= 1 && ((wk / 8) as i32 - (bk / 8) as i32).abs() <= 1;
+                            if kings_adjacent {
+                                continue;
+                            }
+                            let legal = p.legal_moves();
+                            if legal.is_empty() {
+                                continue;
+                            }
+                            let pseudo_ep = p.pseudo_moves().iter().any(|m| m.ep);
+                            let legal_ep = legal.iter().any(|m| m.ep);
+                            if pseudo_ep && !legal_ep {
+                                n += 1;
+                                if n % stride_a == 0 {
+                                    push(&mut out, &p, "ep-shield", 2);
+                                }
+                            }
+                        }
+                    }
+                }
+            }
+        }
+    }
+    // (B)
+    let mut m = 0usize;
+    for bf in 0..8usize {
+        for pside in [-1i32, 1] {
+            let wf = bf as i32 + pside;
+            if !(0..8).contains(&wf) {
+                continue;
+            }
+            let wf = wf as usize;
+            for kside in [-1i32, 1] {
+                let kf = bf as i32 + kside;
+                if !(0..8).contains(&kf) {
+                    continue;
+                }
+                let wk = 3 * 8 + kf as usize;
+                for bk in [63usize, 56, 60, 7, 0] {
+                    for xsq in 0..64usize {
+                        for kind in [0i8, 2, 3, 4, 5] {
+                            let wp = 4 * 8 + wf;
+                            let bp = 4 * 8 + bf;
+                            let mut sqs = vec![wp, bp, bk, wk];
+                            if kind != 0 {
+                                sqs.push(xsq);
+                            } else if xsq != 0 {
+                                continue;
+                            }
+                            if (0..sqs.len()).any(|a| (a + 1..sqs.len()).any(|b| sqs[a] == sqs[b])) {
+                                continue;
+                            }
+                            if [5 * 8 + bf, 6 * 8 + bf].iter().any(|x| sqs.contains(x)) {
+                                continue;
+                            }
+                            let mut q = Pos::empty();
+                            q.sq[wp] = 1;
+                            q.sq[bp] = -1;
+                            q.sq[bk] = -K;
+                            q.sq[wk] = K;
+                            if kind != 0 {
+                                q.sq[xsq] = -kind;
+                            }
+                            q.white = true;
+                            q.ep_file = Some(bf as u8);
+                            q.halfmove = 0;
+                            q.fullmove = 20;
+                            let kings_adjacent = ((wk % 8) as i32 - (bk % 8) as i32).abs() <= 1 && ((wk / 8) as i32 - (bk / 8) as i32).abs() <= 1;
+                            if kings_adjacent || q.in_check(false) || !q.in_check(true) {
+                                continue;
+                            }
+                            if !q.legal_moves().iter().any(|mv| mv.ep) {
+                                continue;
+                            }
+                            // the parent: the black pawn still on its home square, Black to move
+                            let mut par = q.clone();
+                            par.sq[bp] = 0;
+                            par.sq[6 * 8 + bf] = -1;
+                            par.white = false;
+                            par.ep_file = None;
+                            if par.in_check(true) || !par.legal_moves().iter().any(|mv| mv.double && mv.to as usize == bp) {
+                                continue;
+                            }
+                            m += 1;
+                            if m % stride_b == 0 {
+                                push(&mut out, &q, "ep-evasion", 2);
+                                push(&mut out, &par, "ep-evasion-parent", 2);
+                            }
+                        }
+                    }
+                }
+            }
+        }
+    }
+    out
+}
+
 pub fn targets(tier: &str) -> Vec<Target> {
     let thorough = tier == "thorough";
     let mut v = vec![];
@@ -400,6 +548,7 @@ pub fn targets(tier: &str) -> Vec<Target> {
             }
         }
     }
+    v.extend(ep_family(thorough));
     // positions where a mate score appears early but a shorter mate exists deeper (see generate_deepening)
     for line in include_str!("deepening_family.txt").lines() {
         if let Some((d, fen)) = line.split_once('\t') {
